@@ -399,6 +399,7 @@ func c07svStr(sv *validators.StepValidators) string {
 // independent reference (oracle side): committee and required votes from the dumped records
 
 type c07refSV struct {
+	mismatch bool
 	nilSV    bool
 	original map[common.Address]bool
 	approved map[common.Address]bool
@@ -448,6 +449,10 @@ func c07refCommittee(recs []c07rec, god common.Address, perm []int, limit int) c
 		return res
 	default:
 		for i := 0; i < limit; i++ {
+			if i >= len(perm) || perm[i] >= len(sorted) {
+				res.mismatch = true // the code under test has another validator list than the reference
+				return res
+			}
 			res.original[sorted[perm[i]]] = true
 		}
 	}
@@ -627,6 +632,9 @@ func (fx *c07fx) runCom(op c07op, out *c07out) string {
 		return fmt.Sprintf("committee differs between two caches loaded from the same identity set (step %d limit %d): %s vs %s", op.Step, limit, c07svStr(sv), c07svStr(sv2))
 	}
 	ref := c07refCommittee(fx.recs, c07addr(fx.cs.God), perm, limit)
+	if ref.mismatch {
+		return "committee: validator list of the cache differs from the reference list built from the same identity set"
+	}
 	if ref.nilSV != (sv == nil) {
 		return fmt.Sprintf("committee nil=%v, reference nil=%v (step %d limit %d)", sv == nil, ref.nilSV, op.Step, limit)
 	}
@@ -698,6 +706,9 @@ func (fx *c07fx) runVc(op c07op, out *c07out) string {
 
 	// ---- independent oracle: ground truth of who signed what
 	ref := c07refCommittee(fx.recs, c07addr(fx.cs.God), perm, c07refSize(len(mustSorted(fx.recs)), final))
+	if ref.mismatch {
+		return "committee: validator list of the cache differs from the reference list built from the same identity set"
+	}
 	if ref.nilSV {
 		return "" // not reachable through GetCommitteeSize
 	}
@@ -929,6 +940,15 @@ func (fx *c07fx) runCv(op c07op, out *c07out) string {
 
 // c07run executes a case on the real code; returns protocol lines and the first oracle failure per op
 func c07run(cs c07case) (out *c07out, failure string, failOp int) {
+	defer func() {
+		if rec := recover(); rec != nil {
+			out, failure, failOp = &c07out{}, fmt.Sprintf("panicked outside the guarded calls: %v", rec), -1
+		}
+	}()
+	return c07runRaw(cs)
+}
+
+func c07runRaw(cs c07case) (out *c07out, failure string, failOp int) {
 	out = &c07out{}
 	failOp = -1
 	fx, err := c07newFx(cs)
@@ -936,6 +956,10 @@ func c07run(cs c07case) (out *c07out, failure string, failOp int) {
 		return out, "fixture: " + err.Error(), -1
 	}
 	out.line(fx.newLine(), fmt.Sprintf("view n=%d on=%d net=%d", fx.vc.ValidatorsSize(), fx.vc.OnlineSize(), fx.vc.NetworkSize()))
+	if rs, ro := c07refSorted(fx.recs); len(rs) != fx.vc.ValidatorsSize() || ro != fx.vc.OnlineSize() ||
+		fx.vc2.ValidatorsSize() != fx.vc.ValidatorsSize() {
+		failure = fmt.Sprintf("committee: validators view differs from reference (validators %d/%d/%d, online %d/%d)", fx.vc.ValidatorsSize(), fx.vc2.ValidatorsSize(), len(rs), fx.vc.OnlineSize(), ro)
+	}
 	for i, op := range cs.Ops {
 		var f string
 		switch op.Kind {
@@ -977,7 +1001,14 @@ func c07sigClass(f string) string {
 func c07shrink(cs c07case) c07case {
 	_, f0, _ := c07run(cs)
 	cls := c07sigClass(f0)
-	fails := func(c c07case) bool { _, f, _ := c07run(c); return f != "" && c07sigClass(f) == cls }
+	deadline := time.Now().Add(40 * time.Second)
+	fails := func(c c07case) bool {
+		if time.Now().After(deadline) {
+			return false
+		}
+		_, f, _ := c07run(c)
+		return f != "" && c07sigClass(f) == cls
+	}
 	// keep only the failing op when that is enough
 	if _, _, i := c07run(cs); i >= 0 {
 		t := cs
@@ -1325,6 +1356,9 @@ func (fx *c07fx) genCv(r *rand.Rand, allowLate bool) c07op {
 	if d > len(approved) {
 		d = len(approved)
 	}
+	if allowLate && d < eff && eff <= len(approved) && r.Intn(4) != 0 {
+		d = eff
+	}
 	main := []int{hB0, hB1, hB2}[r.Intn(3)]
 	for _, k := range approved[:d] {
 		op.Votes = append(op.Votes, fx.genuine(k, step, main, r))
@@ -1382,7 +1416,12 @@ func (fx *c07fx) genCv(r *rand.Rand, allowLate bool) c07op {
 	}
 	r.Shuffle(len(op.Votes), func(i, j int) { op.Votes[i], op.Votes[j] = op.Votes[j], op.Votes[i] })
 	if allowLate && len(op.Votes) > 1 {
-		cut := r.Intn(len(op.Votes))
+		// fewer than `eff` votes before the first poll: the quorum can only be reached in a later poll
+		m := len(op.Votes)
+		if eff < m {
+			m = eff
+		}
+		cut := r.Intn(m)
 		op.Late = append([]c07sig{}, op.Votes[cut:]...)
 		op.Votes = op.Votes[:cut]
 		op.Note += " late"
@@ -1390,7 +1429,48 @@ func (fx *c07fx) genCv(r *rand.Rand, allowLate bool) c07op {
 	return op
 }
 
+// exhaustive scope: a registry with at most 6 identities, and EVERY subset of (eligible voters + one non-eligible
+// member + one outsider) as a certificate of genuine signatures
+func c07genExhaustive(r *rand.Rand) c07case {
+	var cs c07case
+	for {
+		cs = c07genRegistry(r, false)
+		if n := len(cs.Ids); n >= 1 && n <= 7 {
+			break
+		}
+	}
+	fx, err := c07newFx(cs)
+	if err != nil {
+		return cs
+	}
+	step := []uint8{1, 3, types.Final}[r.Intn(3)]
+	cs.Ops = append(cs.Ops, c07op{Kind: "com", Step: step, Limit: -1})
+	_, approved, other := fx.eligibility(fx.hdr[hPrev], cs.Height, step)
+	keys := append([]int{}, approved...)
+	if len(other) > 0 {
+		keys = append(keys, other[r.Intn(len(other))])
+	}
+	keys = append(keys, 900)
+	if len(keys) > 8 {
+		keys = keys[len(keys)-8:]
+	}
+	cache := r.Intn(3) == 0
+	for mask := 0; mask < 1<<uint(len(keys)); mask++ {
+		op := c07op{Kind: "vc", Step: step, Cache: cache, CertRound: cs.Height, CertVoted: hB0, Blk: hB0, Prev: hPrev, Note: "exhaustive"}
+		for i, k := range keys {
+			if mask&(1<<uint(i)) != 0 {
+				op.Sigs = append(op.Sigs, fx.genuine(k, step, hB0, r))
+			}
+		}
+		cs.Ops = append(cs.Ops, op)
+	}
+	return cs
+}
+
 func c07gen(r *rand.Rand, thorough bool, lateBudget *int32) c07case {
+	if r.Intn(40) == 0 {
+		return c07genExhaustive(r)
+	}
 	cs := c07genRegistry(r, thorough)
 	fx, err := c07newFx(cs)
 	if err != nil {
@@ -1414,9 +1494,13 @@ func c07gen(r *rand.Rand, thorough bool, lateBudget *int32) c07case {
 	for i := 0; i < nvc; i++ {
 		cs.Ops = append(cs.Ops, fx.genVc(r))
 	}
-	for i, k := 0, r.Intn(3); i < k; i++ {
+	ncv := r.Intn(3)
+	if *lateBudget > 0 && ncv == 0 {
+		ncv = 1
+	}
+	for i := 0; i < ncv; i++ {
 		late := false
-		if r.Intn(12) == 0 && *lateBudget > 0 {
+		if *lateBudget > 0 { // this case was picked for a "votes arrive between two polls" scenario
 			*lateBudget--
 			late = true
 		}
@@ -1468,6 +1552,8 @@ func c07dummySet(n int) mapset.Set {
 
 // ---------------------------------------------------------------------------------------------------------
 
+var c07failSeen = map[string]int{}
+
 func c07emit(c *hx.Ctx, cs c07case, out *c07out, failure string) {
 	for _, l := range out.lines {
 		c.Line(l[0], l[1])
@@ -1477,6 +1563,11 @@ func c07emit(c *hx.Ctx, cs c07case, out *c07out, failure string) {
 	}
 	c.Rep.Evaluations += out.evals
 	if failure != "" {
+		c07failSeen[c07sigClass(failure)]++
+		c.Hit("oracle-failure:" + c07sigClass(failure))
+		if c07failSeen[c07sigClass(failure)] > 2 {
+			return // two shrunk replays per failure class are enough; the rest is counted in the distribution
+		}
 		small := c07shrink(cs)
 		_, f2, _ := c07run(small)
 		if f2 == "" {
@@ -1504,7 +1595,7 @@ func init() {
 			return nil
 		}
 		thorough := c.Tier == "thorough"
-		c.Rep.Rule = "registries (0..400 identities: god-only, <=8 switch table, pools with owners inside/outside the registry, discrimination none/some/heavy/all) on a real identity tree + ValidatorsCache; per registry: committee draws (steps 1..149, 253-255, explicit limits incl. n-1, n, n+1), certificates built from real secp256k1 signatures with exactly need-1 / need / need+1 distinct eligible voters plus operators (duplicates, same voter other flags, outsiders, non-eligible members, other round/step/parent/hash signed, flag mismatch, 5 byte-level forgeries, certificate-level other round/hash/step, other parent/block context, both sync paths), vote sets through the real AddVote + countVotes (equivocation, stale/future rounds, late votes) whose certificates go back through ValidateBlockCert; plus the table of the real committee-size / threshold / subtrahend functions over cnt <= N for the four consensus versions; distinct = distinct (registry, op); non-trivial = certificate with at least one signature or required <= 0"
+		c.Rep.Rule = "registries (0..400 identities: god-only, <=8 switch table, pools with owners inside/outside the registry, discrimination none/some/heavy/all) on a real identity tree + ValidatorsCache; per registry: committee draws (steps 1..149, 253-255, explicit limits incl. n-1, n, n+1), certificates built from real secp256k1 signatures with exactly need-1 / need / need+1 distinct eligible voters plus operators (duplicates, same voter other flags, outsiders, non-eligible members, other round/step/parent/hash signed, flag mismatch, 5 byte-level forgeries, certificate-level other round/hash/step, other parent/block context, both sync paths), vote sets through the real AddVote + countVotes (equivocation, stale/future rounds, late votes) whose certificates go back through ValidateBlockCert; 1 case in 40: registry of <= 7 identities with EVERY subset of (eligible voters + a non-eligible member + an outsider) as a certificate; plus the table of the real committee-size / threshold / subtrahend functions over cnt <= N for the four consensus versions; distinct = distinct (registry, op); non-trivial = certificate with at least one signature or required <= 0"
 		maxCnt := 200000
 		c07table(c, maxCnt, thorough)
 		n := c.Scale(260, 12000)
@@ -1540,9 +1631,17 @@ func init() {
 				for i := range jobs {
 					r := rand.New(rand.NewSource(seeds[i]))
 					lb := lates[i]
-					cs := c07gen(r, thorough, &lb)
-					out, f, _ := c07run(cs)
-					results[i] = res{cs, out, f}
+					var cs c07case
+					func() {
+						defer func() {
+							if rec := recover(); rec != nil {
+								results[i] = res{cs, &c07out{}, fmt.Sprintf("panicked outside the guarded calls: %v", rec)}
+							}
+						}()
+						cs = c07gen(r, thorough, &lb)
+						out, f, _ := c07run(cs)
+						results[i] = res{cs, out, f}
+					}()
 				}
 			}()
 		}
@@ -1562,6 +1661,9 @@ func init() {
 			for _, op := range r.cs.Ops {
 				if op.Kind == "vc" && len(op.Sigs) == 0 {
 					continue
+				}
+				if op.Note == "exhaustive" {
+					c.Hit("vc:exhaustive-subset")
 				}
 				ob, _ := json.Marshal(op)
 				if c.Distinct(string(reg) + string(ob)) {
